@@ -483,7 +483,10 @@ def call_lua_sandbox(
                             )
                             if k > 2**53:
                                 # Lua 5.1 numbers are doubles
-                                k = float(k)
+                                try:
+                                    k = float(k)
+                                except OverflowError:
+                                    k = str(k)
                     else:
                         # The name may contain template calls and parser
                         # functions, as the name of a template argument
